@@ -163,6 +163,20 @@ def run(ctx):
         got = {l: n for l, n in zip(labels, counts) if n}
         ctx.check("count_kmers", got == dict(exp), "count_kmers/counts:%s" % wclass(k), "count_kmers differs from Counter of windows: %r vs %r" % (dict(list(got.items())[:4]), dict(list(exp.items())[:4])),
                   dict(c, got=got, expected=dict(exp)), (ename, tuple(rows), k))
+        # the accessors of the counts object agree with the same multiset
+        if got == dict(exp) and exp:
+            total_w = sum(exp.values())
+            ad = {l: int(np.asarray(v).ravel()[0]) for l, v in res.as_dict().items() if int(np.asarray(v).ravel()[0])}
+            lab = next(iter(exp))
+            by_item = int(np.asarray(res[lab]).ravel()[0])
+            props = np.asarray(res.proportions).ravel()
+            mc = res.most_common(3)
+            mc_pairs = list(zip(mc.alphabet, np.asarray(mc.counts).ravel().tolist()))
+            top3 = sorted(exp.values(), reverse=True)[:3]
+            ok_acc = (ad == dict(exp) and by_item == exp[lab] and abs(float(props.sum()) - 1.0) < 1e-9 and all(abs(float(props[list(res.alphabet).index(l)]) - n_ / total_w) < 1e-12 for l, n_ in exp.items())
+                      and [n_ for _, n_ in mc_pairs][:len(top3)] == top3 and all(exp.get(l, 0) == n_ for l, n_ in mc_pairs))
+            ctx.check("count_kmers", ok_acc, "count_kmers/accessors-disagree-with-the-counts", "as_dict / [label] / proportions / most_common disagree with the window multiset: %r, %r, %r" % (dict(list(ad.items())[:3]), by_item, mc_pairs),
+                      dict(c, as_dict=ad, most_common=mc_pairs), (ename, tuple(rows), k, "accessors"))
         # per-sample results kept while a total is accumulated from them (0 + c1 + c2, +=): the samples keep their own counts
         half = len(rows) // 2
         if len(rows) >= 2 and got == dict(exp) and sum(map(len, rows[:half])) >= k and sum(map(len, rows[half:])) >= k:
